@@ -220,7 +220,8 @@ class MQTTClient(MQTTTransport):
             raise RuntimeError("Client needs to connect before disconnecting.")
 
         self._incoming_task.cancel()
-        await self._incoming_task
+        with contextlib.suppress(asyncio.CancelledError):
+            await self._incoming_task
         self._incoming_task = None
         with contextlib.suppress(MqttError):
             await self._client.__aexit__(None, None, None)
